@@ -257,11 +257,25 @@ def reset(work):
             os.remove(os.path.join(work, f))
 
 
-def followup_save(a, work, w, what):
+def followup_save(a, work, w, what, old=None, new=None):
     """after a crash the user restarts and saves again (a shorter wallet): whatever the crashed save left behind must not
     damage the result of a COMPLETED save"""
     state = load_json(os.path.join(work, "wallet.json"))
     if not isinstance(state, dict):
+        return
+    # the restart itself: a script of the package opens the wallet the documented way (and does nothing else).  Whatever the
+    # crashed save left lying around, the wallet file is afterwards still a complete wallet: the previous or the new one
+    rc, out, err = crash.run_plain(["restart-open"], work)
+    a.n += 1
+    a.inc("restarts_through_the_scripts_wallet_open")
+    after = load_json(os.path.join(work, "wallet.json"))
+    if rc != 0 or not isinstance(after, dict):
+        a.v("wallet-unusable-after-restart", "%s, then a restart that only opens the wallet: %s" % (
+            what, "wallet.json is %s" % (after if isinstance(after, str) else "there, but opening it failed: " + err.decode("latin1")[-160:])), w)
+        return
+    if after != state and after not in [x for x in (old, new) if x is not None]:
+        a.v("wallet-file-not-atomic:changed-by-restart", "%s, then a restart that only opens the wallet: wallet.json is neither "
+            "the complete previous nor the complete new wallet" % what, w)
         return
     rc, out, err = crash.run_plain(["save-wallet-followup"], work)
     a.n += 1
@@ -320,7 +334,7 @@ def lane_crash_syscall(a, spec):
         state = load_json(os.path.join(work, "wallet.json"))
         ww = {"lane": "crash-syscall", "keys": spec["keys"], "point": n, "syscall": text[:100]}
         judge(a, state, old, new, ww, "SIGKILL on entry to syscall #%d of the save (%s)" % (n, text[:60]))
-        followup_save(a, work, ww, "SIGKILL on entry to syscall #%d of a save (%s)" % (n, text[:40]))
+        followup_save(a, work, ww, "SIGKILL on entry to syscall #%d of a save (%s)" % (n, text[:40]), old, new)
     if spec["part"] == 0:
         a.samples.append({"lane": "crash-syscall", "keys": spec["keys"], "region": [p[2][:70] for p in pts[:8]],
                           "syscalls_by_name": names})
@@ -350,7 +364,7 @@ def lane_crash_line(a, spec):
         state = load_json(os.path.join(work, "wallet.json"))
         ww = {"lane": "crash-line", "keys": spec["keys"], "line_event": k}
         judge(a, state, old, new, ww, "process exit at statement boundary #%d of the save" % k)
-        followup_save(a, work, ww, "process exit at statement boundary #%d of a save" % k)
+        followup_save(a, work, ww, "process exit at statement boundary #%d of a save" % k, old, new)
     shutil.rmtree(work, ignore_errors=True)
 
 
@@ -382,6 +396,8 @@ def lane_crash_receive(a, spec):
         state = load_json(os.path.join(work, "wallet.json"))
         judge(a, state, old, new, w, "SIGKILL on entry to syscall #%d of the receive script (%s)" % (n, text[:60]))
         printed = ADDR.search(out)
+        if not printed:
+            followup_save(a, work, w, "SIGKILL on entry to syscall #%d of the receive script (%s)" % (n, text[:40]), old, new)
         if printed:
             a.inc("address_printed_before_kill")
             # a restarted process must never hand that address out again
@@ -633,6 +649,7 @@ def finalize(m, tier):
                    ("crash_left_old_wallet", c.get("crash_left_old_wallet", 0), 10),
                    ("crash_left_new_wallet", c.get("crash_left_new_wallet", 0), 3),
                    ("address_printed_before_kill", c.get("address_printed_before_kill", 0), 1),
-                   ("followup_saves_after_crash", c.get("followup_saves_after_crash", 0), 30)],
+                   ("followup_saves_after_crash", c.get("followup_saves_after_crash", 0), 30),
+                   ("restarts_through_the_scripts_wallet_open", c.get("restarts_through_the_scripts_wallet_open", 0), 30)],
         "extra": {"crash_points_exhaustive_per_save": True},
     }
